@@ -749,117 +749,8 @@ Helper lemmas: `Lemmas/AppVisit.lean` (`VTurn`, `askFresh`, `cyc`, `poll_turn`).
   or EVERY application has declined exactly once in this visit (not "since the last sent telegram":
   refuted by `visit_end_not_since_last_send`). -/
 
-/-- Visit invariant: the station is inside a token visit whose `first_app` / `next_application`
-bookkeeping matches the list `D` of applications that declined in this visit so far. -/
-def VInv (n : Nat) (s : Station) (D : List Nat) : Prop :=
-  ∃ d, visitData s = some d ∧ VTurn n d.firstApp s.nextApp D
-
-/-- The token hold continues over a call that made the callbacks `l`: afterwards the station is in
-`UseToken` with `first_cycle_done`, or in `AwaitDataResponse`, or nothing happened at all. -/
-def Continues (w w' : World) (l : List AppCall) : Prop :=
-  (∃ d, w'.s.st = .useToken d true) ∨ (∃ a d, w'.s.st = .awaitData a d) ∨ (w'.s.st = w.s.st ∧ l = [])
-
-/-- Why `do_use_token` may end a token hold at time `now`, `Dl` being the applications that declined in
-the visit (this poll included). -/
-def EndReason (w : World) (now : Int) (Dl : List Nat) : Prop :=
-  (∃ d, visitData w.s = some d ∧ ¬ now < (holdUpdate w.s d).endTokenHoldTime) ∨ w.apps.length = 0 ∨
-  (∃ f, f < w.apps.length ∧ Dl = cyc w.apps.length f w.apps.length)
-
-/-- One poll inside a visit. -/
-theorem visit_step (w w' : World) (now : Int) (phy : Bool) (arr : Bytes) (l : List AppCall) (D : List Nat)
-    (hi : VInv w.apps.length w.s D) (hs : w.stepLog (.poll now phy arr) = some (w', l)) :
-    askFresh D l ∧ w'.apps.length = w.apps.length ∧
-    (Continues w w' l → VInv w'.apps.length w'.s (D ++ declinesOf l)) ∧
-    (¬ Continues w w' l → w'.s.st = .activeIdle none none 0 ∨ EndReason w now (D ++ declinesOf l)) := by
-  obtain ⟨d, hd, hv⟩ := hi
-  simp only [World.stepLog] at hs
-  split at hs
-  · rename_i c hc
-    cases hs
-    have hlen := (poll_frame _ _ _ _ _ _ hc).2
-    obtain ⟨new, hcalls, hf, hcase⟩ := poll_turn _ _ _ _ _ _ d D hd hv hc
-    simp only [List.nil_append] at hcalls
-    rw [hcalls]
-    refine ⟨hf, hlen, ?_, ?_⟩
-    · intro hcont
-      show VInv c.apps.length c.s (D ++ declinesOf new)
-      rw [hlen]
-      rcases hcase with ⟨h1, h2, h3⟩ | ⟨d', hs', hv'⟩ | h1 | ⟨hp, -⟩
-      · subst h1
-        refine ⟨d, ?_, by simpa [declinesOf, h3] using hv⟩
-        simp only at h2
-        unfold visitData at hd ⊢; rw [h2]; exact hd
-      · refine ⟨d', ?_, hv'⟩
-        rcases hs' with h | ⟨a, h⟩ <;> (unfold visitData; rw [h])
-      · exfalso
-        rcases hcont with ⟨d', h⟩ | ⟨a, d', h⟩ | ⟨h, -⟩
-        · simp only at h; rw [h1] at h; cases h
-        · simp only at h; rw [h1] at h; cases h
-        · simp only at h
-          rcases visitData_cases hd with ⟨fcd, h'⟩ | ⟨a, h'⟩ <;> rw [h1, h'] at h <;> cases h
-      · rcases hcont with ⟨d', h⟩ | ⟨a, d', h⟩ | ⟨h, hl⟩
-        · exfalso; simp only at h
-          rcases hp with h' | ⟨a, h'⟩ | h' | h' <;> rw [h'] at h <;> cases h
-        · exfalso; simp only at h
-          rcases hp with h' | ⟨a', h'⟩ | h' | h' <;> rw [h'] at h <;> cases h
-        · simp only at h
-          subst hl
-          rcases hp with h' | ⟨a, h'⟩ | h' | h'
-          · exfalso; rcases visitData_cases hd with ⟨fcd, h''⟩ | ⟨a, h''⟩ <;> rw [h', h''] at h <;> cases h
-          · exfalso; rcases visitData_cases hd with ⟨fcd, h''⟩ | ⟨a', h''⟩ <;> rw [h', h''] at h <;> cases h
-          · have hd' : visitData c.s = some d := by unfold visitData at hd ⊢; rw [h]; exact hd
-            have hdn : d = ⟨now, none⟩ := by
-              unfold visitData at hd'; rw [h'] at hd'; simp at hd'; exact hd'.symm
-            subst hdn
-            have hD : D = [] := hv
-            subst hD
-            exact ⟨_, hd', rfl⟩
-          · exfalso; rcases visitData_cases hd with ⟨fcd, h''⟩ | ⟨a', h''⟩ <;> rw [h', h''] at h <;> cases h
-    · intro hnc
-      rcases hcase with ⟨h1, h2, h3⟩ | ⟨d', hs', hv'⟩ | h1 | ⟨hp, hr⟩
-      · exact absurd (.inr (.inr ⟨h2, h1⟩)) hnc
-      · exfalso
-        rcases hs' with h | ⟨a, h⟩
-        · exact hnc (.inl ⟨d', h⟩)
-        · exact hnc (.inr (.inl ⟨a, d', h⟩))
-      · exact .inl h1
-      · right
-        rcases hr with h | h | h
-        · exact .inl ⟨d, hd, h⟩
-        · exact .inr (.inl h)
-        · exact .inr (.inr h)
-  · cases hs
-
-/-- A call sequence during which the token hold continues: polls only, each of them `Continues`. -/
-def HoldRun : World → List ApiCall → Prop
-  | _, [] => True
-  | w, a :: rest => (∃ now phy arr, a = .poll now phy arr) ∧
-      ∀ w1 l, w.stepLog a = some (w1, l) → Continues w w1 l ∧ HoldRun w1 rest
-
-/-- The visit invariant along a whole run of polls inside one token visit. -/
-theorem visit_run : ∀ (calls : List ApiCall) (w w' : World) (log : List AppCall) (D : List Nat),
-    VInv w.apps.length w.s D → HoldRun w calls → w.runLog calls = some (w', log) →
-    askFresh D log ∧ w'.apps.length = w.apps.length ∧ VInv w'.apps.length w'.s (D ++ declinesOf log) := by
-  intro calls
-  induction calls with
-  | nil => intro w w' log D hi _ h; cases h; exact ⟨trivial, rfl, by simpa [declinesOf] using hi⟩
-  | cons a rest ih =>
-    intro w w' log D hi hrun h
-    obtain ⟨⟨now, phy, arr, ha⟩, hrest⟩ := hrun
-    subst ha
-    simp only [World.runLog] at h
-    split at h
-    · rename_i w1 l1 hs1
-      split at h
-      · rename_i w2 l2 hr2
-        cases h
-        obtain ⟨hcont, hrun1⟩ := hrest w1 l1 hs1
-        obtain ⟨hf1, hl1, hinv1, -⟩ := visit_step w w1 now phy arr l1 D hi hs1
-        obtain ⟨hf2, hl2, hinv2⟩ := ih w1 w' l2 _ (hinv1 hcont) hrun1 hr2
-        refine ⟨askFresh_append _ _ _ hf1 hf2, hl2.trans hl1, ?_⟩
-        simpa [declinesOf_append] using hinv2
-      · cases h
-    · cases h
+/-! `VInv`, `Continues`, `EndReason`, `HoldRun` and the step / run lemmas `visit_step`, `visit_run` are in
+`Lemmas/AppVisit.lean` (namespace `PV.C15`). -/
 
 /-- **`no_double_decline`** (one whole token visit, any polls / bytes / times / scripts).  From the start
 of a visit (`first_app = None`, as after every token receipt / claim) and as long as the token hold
